@@ -218,4 +218,59 @@ def run(ctx):
     ids = sorted(set(s_[2] for s_ in exits['normal']))
     ctx.check(ids and max(ids) <= 1, 'R3', 'start records at most one message id', where(st), 'ids recorded per exit state: %s' % ids, key='R3|start|message id once')
     ctx.check(1 in ids, 'R3', 'start records a message id on the send side', where(st), 'ids recorded per exit state: %s' % ids, key='R3|start|message id recorded')
+    # ---- R4 a status lands in the slot of the request it describes --------------------------------------------------------------------------------
+    ctx.rule('R4', 'Request::waitall stores the status of a completed request in status[i] where i is the position of that request (what waitany returned, or the request waited for), not the iteration count', 1)
+    wa = P.fn('simgrid::smpi::Request::waitall')
+    vw = A.view(wa)
+
+    def sub_of(t):
+        # status[X] -> X   (pointer subscript normal forms: ('index', base, X) or *(base + X))
+        if t[0] in ('idx', 'index'):
+            return t[1], t[2]
+        if t[0] == 'un' and t[1] == '*' and t[2][0] == 'bin' and t[2][1] == '+':
+            return t[2][2], t[2][3]
+        return None, None
+    stat_p = lib.parm(wa, 'status') if any(p_['n'] == 'status' for p_ in wa['params']) else lib.parm_i(wa, 2)
+    req_p = lib.parm_i(wa, 1)
+    problems, nstore = set(), 0
+    for p_ in vw.paths(max_visits=2):
+        if p_.exit in ('noreturn', 'cut'):
+            continue
+        slot = None         # position of the request completed last on this path
+        alias = {}
+        for e in vw.path_events(p_):
+            if e.kind == 'assign' and e.lhs[0] == 'var':
+                r = e.rhs
+                while r[0] in ('cast', 'conv'):
+                    r = r[2]
+                if r[0] == 'call' and r[1].endswith('Request::waitany'):
+                    slot = e.lhs
+                    alias = {e.lhs: e.lhs}
+                elif slot is not None and (r == slot or alias.get(r) is not None):
+                    alias[e.lhs] = slot
+                else:
+                    alias.pop(e.lhs, None)
+                    if e.lhs == slot:
+                        slot = None
+            if e.kind == 'call' and e.q.endswith('Request::wait') and e.args:
+                a0 = e.args[0]
+                if a0[0] == 'un' and a0[1] == '&':
+                    b_, x_ = sub_of(a0[2])
+                    if b_ == req_p:
+                        slot = x_
+                        alias = {x_: x_}
+            if e.kind == 'call' and e.q.endswith('::operator=') and e.obj is not None and e.args and 'pstat' in repr(e.args[0]):
+                b_, x_ = sub_of(e.obj)
+                if b_ == stat_p:
+                    nstore += 1
+                    if slot is None or alias.get(x_) is None:
+                        problems.add('line %s: status[%s] receives the status of the request at position %s' % (e.line, ex.pretty(x_), ex.pretty(slot) if slot is not None else '?'))
+            if e.kind == 'assign' and e.lhs[0] in ('idx', 'index', 'un') and 'pstat' in repr(e.rhs):
+                b_, x_ = sub_of(e.lhs)
+                if b_ == stat_p:
+                    nstore += 1
+                    if slot is None or alias.get(x_) is None:
+                        problems.add('line %s: status[%s] receives the status of the request at position %s' % (e.line, ex.pretty(x_), ex.pretty(slot) if slot is not None else '?'))
+    ctx.check(nstore >= 1 and not problems, 'R4', 'waitall: status[index of the completed request] = its status', where(wa), '; '.join(sorted(problems)) or '%d store(s) on the explored paths' % nstore,
+              key='R4|waitall|status slot')
     return EXPLANATION
